@@ -108,7 +108,9 @@ def clause_b(facts, rep):
                        (e.get('k') == 'bin' and e['op'] in ('+=', '=') and is_this_member(e['l'], 'np_')):
                         found += 1
                         st = M.at(bid, i)
-                        rep.check(st is not None and 'room' in st, 'E2.node-guard', f.qn, show(e), locline(e['loc']),
+                        if st is None:
+                            continue   # unreachable
+                        rep.check('room' in st, 'E2.node-guard', f.qn, show(e), locline(e['loc']),
                                   'np_ may grow only under np_ < cap_', facts.config)
             rep.require(found >= 1, 'C02.b: %s: no np_ increment found in node()' % f.name)
             rep.fn(f)
@@ -144,8 +146,10 @@ def clause_b(facts, rep):
                 rep.fail('E2.stack-store', f.qn, show(e), locline(e['loc']), 'stack slot index is not np_ - 1', facts.config)
                 continue
             st = M.at(bid, i)
+            if st is None:
+                continue   # unreachable
             n_store += 1
-            rep.check(st is not None and 'pushed' in st, 'E2.stack-store', f.qn, show(e), locline(e['loc']),
+            rep.check('pushed' in st, 'E2.stack-store', f.qn, show(e), locline(e['loc']),
                       'access to st_[np_-1] must be dominated by the success edge of node()', facts.config)
     rep.min_instances('E2.stack-store', 20)
     rep.min_instances('E2.node-guard', 2)
@@ -212,8 +216,10 @@ def clause_c(facts, rep):
                 if o is not None and o.get('k') == 'sub' and is_this_member(strip(o['base']), 'st_'):
                     ix = strip(o['idx'])
                     st = M.at(bid, i)
+                    if st is None:
+                        continue
                     dtors += 1
-                    rep.check(ix.get('k') == 'ref' and st is not None and ('lt', ix['name']) in st, 'E2.teardown', f.qn,
+                    rep.check(ix.get('k') == 'ref' and ('lt', ix['name']) in st, 'E2.teardown', f.qn,
                               show(e), locline(e['loc']), 'destructor index must be below np_', facts.config)
             if e.get('k') == 'call' and e.get('cname') == 'free':
                 a = strip(e['args'][0])
@@ -340,6 +346,7 @@ def run(rep, tier):
         clause_a(facts, rep)
         clause_b(facts, rep)
         clause_c(facts, rep)
+        clause_e(facts, rep)
         w = widest_load(facts)
         rep.require(w >= 16, 'C02.d: no vector load found in the padded scanners (%s)' % cfg)
         vec_len = widest_load(facts, ('quote.inc.h',))
@@ -352,3 +359,83 @@ def run(rep, tier):
         'decides clauses (a)-(d) of DESIGN.md C02 only: event-status discipline, node-stack stores dominated by a successful push, TearDown bounds, padding/sentinel constants',
         'does not decide absence of undefined behaviour in general, nor that End* counts equal the nodes above the parent',
     ]
+
+
+def clause_e(facts, rep):
+    """every slot that a successful node() adds below np_ is given a node type before the
+    event returns: TearDown runs ~NodeType() on all of st_[0, np_) and destroy() switches on
+    the type, so an untyped (stale or uninitialised) slot is acted upon."""
+    TYPERS = ('setLength', 'setType', 'setRaw')
+    n = 0
+    for f in facts.functions:
+        if f.cls_qn not in ('sonic_json::SAXHandler', 'sonic_json::SchemaHandler') or f.short == 'node':
+            continue
+        node_ids = {g.id for g in facts.functions if g.short == 'node' and g.cls_qn == f.cls_qn}
+        if not any(e.get('cid') in node_ids for _, _, _, e in f.calls()):
+            continue
+        rep.fn(f)
+        aliases = set()   # locals initialised with &st_[np_-1]
+
+        def is_slot(e):
+            e = strip(e)
+            if e is None:
+                return False
+            if e.get('k') == 'un' and e['op'] == '&':
+                return is_slot_lv(e['e'])
+            if e.get('k') == 'ref' and e.get('id') in aliases:
+                return True
+            return False
+
+        def is_slot_lv(e):
+            e = strip(e)
+            if e is None:
+                return False
+            if e.get('k') == 'sub' and is_this_member(strip(e['base']), 'st_'):
+                idx = linear(e['idx'], _sym_member({'np_'}))
+                return idx is not None and idx.get('np_') == 1 and idx.get(1, 0) == -1
+            if e.get('k') == 'un' and e['op'] == '*':
+                return is_slot(e['e'])
+            return False
+        for bid, i, s in f.stmts():
+            s_ = strip(s)
+            if s_.get('k') == 'decl':
+                for v in s_['vars']:
+                    if v.get('init') is not None and '*' in v['t']:
+                        ini = strip(v['init'])
+                        if is_slot(ini) or (ini.get('k') == 'new' and any(is_slot(a) for a in ini.get('placement', []))):
+                            aliases.add(v['id'])
+
+        def kill_edge(b, cond, sense, node_ids=node_ids):
+            c = strip_expect(cond)
+            neg = False
+            while c is not None and c.get('k') == 'un' and c['op'] == '!':
+                neg = not neg
+                c = strip_expect(c['e'])
+            if c is not None and c.get('k') == 'call' and c.get('cid') in node_ids and sense != neg:
+                return ['clean']
+            return []
+
+        def gen_stmt(s):
+            for e in walk(s):
+                if e.get('k') == 'new' and any(is_slot(a) for a in e.get('placement', [])):
+                    return ['clean']
+                if e.get('k') == 'call' and e.get('cname') in TYPERS and e.get('obj') is not None:
+                    o = strip(e['obj'])
+                    if is_slot_lv(o) or is_slot(o):
+                        return ['clean']
+            return []
+        M = Must(f, gen_stmt=gen_stmt, kill_edge=kill_edge, entry=frozenset(['clean']))
+        for bid, i, s in f.stmts():
+            s_ = strip(s)
+            if s_.get('k') == 'ret':
+                st = M.at(bid, i)
+                if st is None:
+                    continue
+                c = cval(s_.get('e'))
+                if c == 0:
+                    continue   # failure return: the parse stops (clause a) and np_ was not raised on this path
+                n += 1
+                rep.check('clean' in st, 'E2.slot-init', f.qn, 'return after a push', locline(s_['loc']),
+                          'the slot added by node() must be given a type (placement new / setLength / setType) before the event returns; '
+                          'TearDown destroys every slot below np_', facts.config)
+    rep.require(n >= 16, 'C02.e: only %d push-returns analysed' % n)
